@@ -116,7 +116,13 @@ def inputs(rnd, tier):
     for i in range(n):
         res.append(("many_lots", {"B1": many_lots(30 + 30 * (i % 2)), "B2": rnd.choice(full)}))
         res.append(("joint_filing", {"B1": rnd.choice(joint or full), "B2": rnd.choice(joint or full)}))
-        res.append(("crypto_fees_and_types", {"B1": rnd.choice(feey or full), "B2": rnd.choice(typed or full)}))
+        out_ty = ["lost", "staking", "fee", "donate", "gift", "sell"][i % 6]      # every out type in turn (each has its own sheet in some tax report)
+        typed_t = [h for h in typed if any(x["cls"] == "out" and x["type"] == out_ty for x in h)] or typed
+        res.append(("crypto_fees_and_types", {"B1": rnd.choice(feey or full), "B2": rnd.choice(typed_t or full)}))
+        late = [h for h in full if min((x["t"] + x["off"]) // 86400 for x in h) >= 400]
+        early = [h for h in full if min((x["t"] + x["off"]) // 86400 for x in h) < 250]
+        if late and early:
+            res.append(("asset_acquired_later", {"B1": rnd.choice(early), "B2": rnd.choice(late)}))
         res.append(("single", {"B1": rnd.choice(mixed or full)}))
         res.append(("multi", {"B1": rnd.choice(full), "B2": rnd.choice(sparse or full), "B3": rnd.choice(mixed or full)}))
         res.append(("sparse_years", {"B1": rnd.choice(sparse or full)}))
@@ -128,7 +134,11 @@ def inputs(rnd, tier):
 def dates_for(shape, assets, rnd):
     days = sorted({(x["t"] + x["off"]) // 86400 for h in assets.values() for x in h})
     tax_days = sorted({(x["t"] + x["off"]) // 86400 for h in assets.values() for x in h if x["cls"] != "in" or x["type"] == "interest"}) or days
-    cands = sorted(set(days) | {d + 1 for d in tax_days} | {d - 1 for d in days} | {0, 180, 364, 365, 545, 730, 731, 1096, days[0] - 30, days[-1] + 30})
+    firsts = sorted({min((x["t"] + x["off"]) // 86400 for x in h) for h in assets.values()})
+    between = {(firsts[i] + firsts[i + 1]) // 2 for i in range(len(firsts) - 1)}       # after one asset's first acquisition, before another's
+    cands = sorted(set(days) | {d + 1 for d in tax_days} | {d - 1 for d in days} | {0, 180, 364, 365, 545, 730, 731, 1096, days[0] - 30, days[-1] + 30} | between)
+    if shape == "to" and between and rnd.random() < 0.5:
+        return None, rnd.choice(sorted(between))
     f = t = None
     if shape in ("from", "fromto"):
         f = rnd.choice(cands)
@@ -153,7 +163,22 @@ def apply_fault(job, fault, rnd):
     job = copy.deepcopy(job)
     a0 = sorted(job["assets"])[0]
     lay = odsio.default_layout()
-    if fault.startswith("sheet_"):
+    if fault.endswith("_last_asset"):
+        # the same faults in the sheet of the asset processed last (every sheet before it is valid): nothing may be left behind either
+        fault0 = fault[:-len("_last_asset")]
+        a_last = sorted(job["assets"])[-1]
+        if len(job["assets"]) < 2:
+            h0 = job["assets"][a0]
+            job["assets"] = {"B1": h0, "B2": h0}
+            a_last = "B2"
+        if fault0.startswith("sheet_"):
+            job["sheet_fault"] = {a_last: {"kind": fault0[len("sheet_"):]}}
+        else:
+            cell = {"field_unknown_exchange": ("exchange", {"k": "s", "s": "Nowhere"}), "field_zero_amount": ("crypto_in", {"k": "n", "n": 0})}[fault0]
+            job["sheet_fault"] = {a_last: {"kind": "field", "row": 0, "field": cell[0], "cell": cell[1]}}
+    elif fault in ("option_unknown_asset", "option_asset_wrong_case"):
+        job["args"]["asset"] = "XRP" if fault == "option_unknown_asset" else a0.lower()
+    elif fault.startswith("sheet_"):
         job["sheet_fault"] = {a0: {"kind": fault[len("sheet_"):]}}
     elif fault.startswith("field_"):
         cell = {"field_unknown_exchange": ("exchange", {"k": "s", "s": "Nowhere"}), "field_no_timezone": ("timestamp", None), "field_bad_type": ("transaction_type", {"k": "s", "s": "sell"}),
@@ -190,6 +215,8 @@ def apply_fault(job, fault, rnd):
             text += "\n[surprise]\nx = 1\n"
         elif fault == "config_no_assets":
             text = "\n".join(l for l in text.splitlines() if not l.startswith("assets")) + "\n"
+        elif fault == "config_bom":
+            text = "\ufeff" + text
         elif fault == "config_not_ini":
             text = "\n".join(l for l in text.splitlines() if not l.startswith("[")) + "\n"       # no section header at all
         elif fault == "config_json":
@@ -428,6 +455,8 @@ def run_c18(tier):
             job["audit"] = True
             if n % 4 == 2:
                 job["env"] = {"RP2_ENABLE_PROFILER": "1", "LOG_LEVEL": "DEBUG"}      # the switches rp2 reads from the environment
+            if n % 4 == 0 and n > 0:
+                job["cwd_files"] = {"log": "a file, not a directory\n"}               # the working directory already holds a FILE named log
             if n % 2 == 1:
                 # the output directory already holds entries named like this run's reports: stale files, and symbolic links to files kept elsewhere
                 tag = (job.get("sched") and (job["sched"][0][1] if len(job["sched"]) == 1 else "mixed")) or job["args"].get("method") or "fifo"
@@ -439,7 +468,7 @@ def run_c18(tier):
         faults = sorted({t["fault"] for t in bad})
         # quick: one representative of every way of failing (option parsing, missing file, config that is not INI at all, config rejected by
         # rp2's own validation, sheet structure, field value, computation), plus a few more at random
-        always = ["unknown_option", "missing_input_file", "config_json", "config_not_ini", "input_not_a_spreadsheet", "config_missing_section", "sheet_missing_end", "field_non_numeric", "overspend"]
+        always = ["unknown_option", "missing_input_file", "config_json", "config_not_ini", "config_bom", "input_not_a_spreadsheet", "config_missing_section", "sheet_missing_end", "field_non_numeric", "overspend"]
         chosen = [f for f in always if f in faults] + rnd.sample([f for f in faults if f not in always], 2)
         for n, fault in enumerate(faults if not q else chosen):
             t = rnd.choice([x for x in bad if x["fault"] == fault])
